@@ -139,22 +139,23 @@ inductive ParseResult where
   | panic
 deriving DecidableEq, Repr
 
+/-- the part of `ParseRange` after the fields were cleaned: `ch[0]`, `ch[1]` -/
+def parseBounds : List (List UInt8) → ParseResult
+  | lo :: hi :: _ =>
+    match parseInt63 lo with
+    | none => .err "start"
+    | some l =>
+      match parseInt63 hi with
+      | none => .err "stop"
+      | some h =>
+        match newRange (UInt64.ofNat l) (some (UInt64.ofNat h)) false false with
+        | some r => .ok r
+        | none => .err "making"
+  | _ => .err "bounds"          -- after the fix; before it: index out of range → panic
+
 /-- `ParseRange(in)` without options (after the fix: a missing bound is an error). -/
 def parseRange (inp : List UInt8) : ParseResult :=
   if inp.isEmpty then .err "required"
-  else
-    let ch := (fields inp).map (fun f => f.filter isAlnum)
-    match ch with
-    | lo :: hi :: _ =>
-      match parseInt63 lo with
-      | none => .err "start"
-      | some l =>
-        match parseInt63 hi with
-        | none => .err "stop"
-        | some h =>
-          match newRange (UInt64.ofNat l) (some (UInt64.ofNat h)) false false with
-          | some r => .ok r
-          | none => .err "making"
-    | _ => .err "bounds"
+  else parseBounds ((fields inp).map (fun f => f.filter isAlnum))
 
 end BstreamVerif.Range
